@@ -16,10 +16,19 @@ parsec_taskpool_t *ptg_make(parsec_data_collection_t *A, int tpid, const int *G,
 static ptg_shared_t *SH;
 static int MYRANK;
 
+static parsec_context_t *CTX;
+static parsec_taskpool_t *TPS[PTG_MAX_TP];
+static int chain_next[PTG_MAX_TP];
 static int on_complete(parsec_taskpool_t *tp, void *data)
 {
     (void)tp;
-    ptgh_event(MYRANK, PE_COMPLETE_CB, (long)(intptr_t)data, 0);
+    int slot = (int)(intptr_t)data;
+    ptgh_event(MYRANK, PE_COMPLETE_CB, slot, 0);
+    if (slot >= 0 && slot < PTG_MAX_TP && chain_next[slot] >= 0) {
+        int b = chain_next[slot];
+        chain_next[slot] = -1;
+        parsec_context_add_taskpool(CTX, TPS[b]);       /* a taskpool added from a completion callback */
+    }
     return 0;
 }
 
@@ -46,16 +55,23 @@ void *rank_main(void *arg)
         int64_t *ptr = PARSEC_DATA_COPY_GET_PTR(parsec_data_get_copy(dt, 0));
         for (int j = 0; j < ne; j++) ptr[j] = 1000 * (int64_t)(k + 1) + j;
     }
-    parsec_taskpool_t *tp[PTG_MAX_TP] = {0};
+    parsec_taskpool_t **tp = TPS;
+    CTX = ctx;
+    memset(TPS, 0, sizeof(TPS));
+    for (int i = 0; i < PTG_MAX_TP; i++) chain_next[i] = -1;
     for (int i = 0; i < SH->nactions; i++) {
         ptg_action_t *a = &SH->actions[i];
         ptgh_event(MYRANK, PE_ACTION_BEGIN, i, a->kind);
         switch (a->kind) {
         case PA_NEW:
             tp[a->a] = ptg_make(DC, a->a, SH->G, ne);
-            parsec_taskpool_set_complete_callback(tp[a->a], on_complete, (void *)(intptr_t)a->a);
             break;
-        case PA_ADD: parsec_context_add_taskpool(ctx, tp[a->a]); break;
+        case PA_ADD:
+            /* members of a compound must not carry a completion callback of their own (compound.c
+             * installs its own); directly added taskpools get theirs here */
+            if (tp[a->a]->on_complete == NULL) parsec_taskpool_set_complete_callback(tp[a->a], on_complete, (void *)(intptr_t)a->a);
+            parsec_context_add_taskpool(ctx, tp[a->a]);
+            break;
         case PA_START: parsec_context_start(ctx); break;
         case PA_CTXWAIT: parsec_context_wait(ctx); break;
         case PA_TPWAIT: parsec_taskpool_wait(tp[a->a]); break;
@@ -67,7 +83,17 @@ void *rank_main(void *arg)
             if (a->c > 1) parsec_taskpool_set_complete_callback(c, on_complete, (void *)(intptr_t)a->a);
             break;
         }
-        case PA_FREE: if (tp[a->a]) { parsec_taskpool_free(tp[a->a]); tp[a->a] = NULL; } break;
+        case PA_CHAIN:
+            chain_next[a->a] = a->b;
+            parsec_taskpool_set_complete_callback(tp[a->b], on_complete, (void *)(intptr_t)a->b);
+            break;
+        case PA_FREE:
+            if (tp[a->a]) {
+                parsec_taskpool_t *victim = tp[a->a];
+                parsec_taskpool_free(victim);
+                for (int k = 0; k < PTG_MAX_TP; k++) if (tp[k] == victim) tp[k] = NULL;     /* a 1-element composition aliases its member */
+            }
+            break;
         }
         ptgh_event(MYRANK, PE_ACTION_END, i, a->kind);
     }
